@@ -24,7 +24,7 @@ size_t gl_off, gl_len;
 #define ALIGN8(n) (((n) + sizeof(double) - 1) & ~(sizeof(double) - 1))
 /* representation invariant of a bump heap */
 #define BH_INV(h) ((h)->head == 0 || ((h)->offset >= (int)sizeof(Block) && (size_t)(h)->offset <= ALLOC_SIZE && (h)->offset % 8 == 0 && OFF((h)->head) == 0))
-#define BH_FRESH(h) (__CPROVER_is_fresh(h, sizeof(*(h))) && ((h)->head != 0 ==> __CPROVER_is_fresh((h)->head, ALLOC_SIZE)) && (h)->offset >= 0)
+#define BH_FRESH(h) (__CPROVER_is_fresh(h, sizeof(*(h))) && ((h)->head != 0 ==> __CPROVER_is_fresh((h)->head, ALLOC_SIZE)) && (h)->offset >= 0 && (size_t)(h)->offset <= ALLOC_SIZE && (h)->offset % 8 == 0)
 /* the ghost live block lies in the used part of the current chunk */
 #define GL_OK(h) (gl_len >= 1 && ((h)->head != 0 ==> (gl_off >= sizeof(Block) && gl_off + gl_len <= (size_t)(h)->offset)))
 static inline void gv_abort(void) { __CPROVER_assert(0, "std::abort() reached"); __CPROVER_assume(0); }
@@ -40,14 +40,15 @@ UNITS.append(Unit(
     contract='__CPROVER_requires(size >= 1 && size <= ((size_t)1 << 40))\n__CPROVER_ensures(__CPROVER_is_fresh(__CPROVER_return_value, size))\n__CPROVER_assigns()',
     says='ASSUMED: malloc returns a fresh object of the requested size (out-of-memory not modelled)'))
 
-BH_LOWER = [members(['head', 'offset'], minimum=2), ren('SourceHeap::allocate', 'src_alloc', 0), ren('SourceHeap::AllocSize', 'ALLOC_SIZE', 0)]
+BH_LOWER = [members(['head', 'offset'], minimum=2), ren('SourceHeap::allocate', 'src_alloc', 0), ren('SourceHeap::AllocSize', 'ALLOC_SIZE', 0),
+            rx(r'(?<![\w.>])refill\(\)', 'BumpHeap_refill(self)', 0)]
 UNITS.append(Unit(
     name='BumpHeap_refill', src=MEM, within=r'class BumpHeap\b', anchor=r'void refill\(\)',
     proto='void BumpHeap_refill(struct BumpHeap* self)',
     contract='''__CPROVER_requires(BH_FRESH(self))
 __CPROVER_ensures(self->head != 0 && __CPROVER_is_fresh(self->head, ALLOC_SIZE) && self->head->next == __CPROVER_old(self->head) && self->offset == (int)sizeof(Block))
 __CPROVER_assigns(self->head, self->offset)''',
-    prelude=[HEAP], uses=['src_alloc'], lower=BH_LOWER,
+    prelude=[HEAP], uses=['src_alloc'], lower=BH_LOWER, backend='smt',
     says='refill links a fresh chunk in front of the chunk list and starts bumping just after the chunk header'))
 UNITS.append(Unit(
     name='BumpHeap_allocate', src=MEM, within=r'class BumpHeap\b', anchor=r'inline void\* allocate\(size_t size\)',
